@@ -29,7 +29,7 @@ import lib
 import sched
 
 # ------------------------------------------------------------------------------------------------ programs
-# op syntax shared with the driver:  inc:o:a get:o lab:k linc:k:a rem:k clr reg:c unreg:c col rcol:c rrcol:c  (+ oracle-only obs:s:a obs:h:a info:v state:k sti:v gti rcx:c rct stn)
+# op syntax shared with the driver:  inc:o:a get:o lab:k linc:k:a rem:k clr reg:c unreg:c col rcol:c rrcol:c  (+ oracle-only obs:s:a obs:h:a info:v state:k sti:v gti rcx:c rct stn linc2:k:a regy:i)
 # rcol:c  = registry.collect() over a collector that registers/unregisters x<c> and does a restricted lookup and a
 #           get_target_info from inside its collect();  rrcol:c = registry.restricted_registry(['e']).collect() over the same collector
 QUICK_PROGRAMS = [
@@ -56,7 +56,14 @@ QUICK_PROGRAMS = [
     # registered, world g: target info is set, both in the set-up phase
     ('cx', 'rcx:1|unreg:1', 1, False),
     ('g', 'rct|stn', 1, False),
+    # two threads CONSTRUCTING values at the same time (children of two different parents; the per-type file is first used /
+    # already in use); pre-emption points inside mmap_dict.py are enabled for these (DEEP)
+    ('p2', 'linc:0:1|linc2:0:2', 1, False),
+    ('cp2', 'linc:0:1|linc2:0:2', 1, False),
+    # two DIFFERENT collectors claiming one name: exactly one register() may succeed
+    ('c', 'regy:1|regy:2', 1, False),
 ]
+DEEP = {'linc:0:1|linc2:0:2', 'linc:0:1,linc:1:1|linc2:0:2,linc2:1:2'}
 THOROUGH_PROGRAMS = [
     ('c', 'inc:0:1|inc:0:2|col', 2, True),
     ('c', 'reg:1|reg:2,unreg:2|col', 2, True),
@@ -78,6 +85,8 @@ THOROUGH_PROGRAMS = [
     ('sh', 'obs:s:2,obs:h:1|col|col,col', 2, False),
     ('int', 'info:a,sti:x|state:1,sti:y,gti|col,col', 2, False),
     ('cxg', 'rcx:1,rct|unreg:1,stn|rcx:2,unreg:2', 2, False),
+    ('p2', 'linc:0:1,linc:1:1|linc2:0:2,linc2:1:2', 2, False),
+    ('c', 'regy:1|regy:2|col', 2, False),
 ]
 BACKENDS = ('mutex', 'mmap')
 
@@ -108,6 +117,20 @@ def pending_op(code, lasti):
         m = {i.offset: i.opname for i in dis.get_instructions(code)}
         _OPMAP[code] = m
     return m.get(lasti, '?')
+
+
+DEEP_RELEVANT = {'mmap_dict.py': {'__init__', '_init_value', 'read_value', 'write_value', '_read_all_values', 'close'}}
+
+
+def relevant_point_deep(where):
+    """as relevant_point, plus the bytecodes of MmapedDict's constructor / slot allocation / read / write"""
+    if relevant_point(where):
+        return True
+    if where is None or isinstance(where, str):
+        return False
+    code, lasti = where
+    base = os.path.basename(code.co_filename)
+    return code.co_name in DEEP_RELEVANT.get(base, ()) and pending_op(code, lasti) not in LOCAL_OPS
 
 
 def relevant_point(where):
@@ -183,11 +206,13 @@ class World:
         self.R = CollectorRegistry(target_info={'k': 't0'}) if 'g' in flags else CollectorRegistry()
         self.c = Counter('c', 'h', registry=self.R) if 'c' in flags else None
         self.p = Counter('p', 'h', ['l'], registry=self.R) if ('p' in flags or 'q' in flags) else None
+        self.p2 = Counter('p2', 'h', ['l'], registry=self.R) if '2' in flags else None
         self.s = Summary('s', 'h', registry=self.R) if 's' in flags else None
         self.h = Histogram('hh', 'h', buckets=(1.0, 2.0), registry=self.R) if 'h' in flags else None
         self.I = Info('inf', 'h', registry=self.R) if 'i' in flags else None
         self.N = Enum('en', 'h', states=['a', 'b', 'c'], registry=self.R) if 'n' in flags else None
         self.X = {i: XCollector(i) for i in range(1, 5)}
+        self.Y = {i: XCollector(9) for i in range(1, 3)}      # two DIFFERENT collectors claiming the same name x9
         if 'x' in flags:                 # set-up phase: the named collectors are registered before the threads start
             self.R.register(self.X[1])
             self.R.register(self.X[2])
@@ -209,6 +234,9 @@ class World:
         if self.p is not None:
             for k, ch in list(self.p._metrics.items()):
                 out[('p_total', (('l', k[0]),))] = ch._value._value
+        if self.p2 is not None:
+            for k, ch in list(self.p2._metrics.items()):
+                out[('p2_total', (('l', k[0]),))] = ch._value._value
         if self.s is not None:
             out[('s_count', ())] = self.s._count._value
             out[('s_sum', ())] = self.s._sum._value
@@ -298,6 +326,17 @@ def make_thunk(w, tid, ops, log):
             w.children.append(ch)
             ch.inc(int(f[2]))
             return ['L%s=%d' % (f[1], id(ch))], None
+        if k == 'linc2':
+            ch = w.p2.labels(f[1])
+            w.children.append(ch)
+            ch.inc(int(f[2]))
+            return [], None
+        if k == 'regy':
+            try:
+                w.R.register(w.Y[int(f[1])])
+            except ValueError:
+                return [], {'regy': 'duplicate'}
+            return [], {'regy': 'ok'}
         if k == 'rem':
             w.p.remove(f[1])
             return [], None
@@ -418,6 +457,18 @@ def final_state(w):
         for s in f.samples:
             vals[(s.name, tuple(sorted(s.labels.items())))] = s.value
     st = {'vals': vals}
+    names = [f.name for f in fams]
+    st['dup_families'] = sorted({n for n in names if names.count(n) > 1})
+    c2n, n2c = w.R._collector_to_names, w.R._names_to_collectors
+    bad = []
+    for col, ns in c2n.items():
+        for n in ns:
+            if n2c.get(n) is not col:
+                bad.append('name %r of a registered collector maps to %s' % (n, 'nothing' if n not in n2c else 'another collector'))
+    for n, col in n2c.items():
+        if n != 'target_info' and col not in c2n:
+            bad.append('name %r maps to a collector that is not registered' % n)
+    st['maps_bad'] = bad
     st['files'] = read_files(w) if w.backend == 'mmap' else None
     st['keys'] = {k[0]: id(ch) for k, ch in (w.p._metrics.items() if w.p is not None else [])}
     st['regs'] = sorted(x.i for x in w.R._collector_to_names if isinstance(x, XCollector))
@@ -528,6 +579,15 @@ def oracle(program, res, obs):
         r = sums_oracle(ops, dyn, obs['final']['files'], 'C02:lost-update-in-file', 'in the store FILE: ')
         if r:
             return r
+    # the registry never holds two collectors claiming one name (C06's invariant, under concurrency)
+    regy = [e[4]['regy'] for e in obs['log'] if e[4] is not None and 'regy' in e[4]]
+    if regy and not any(f[0] == 'unreg' for f in ops) and regy.count('ok') != 1:
+        return ('C02:two-collectors-one-name', '%d of %d register() calls of collectors claiming the same name succeeded' % (
+            regy.count('ok'), len(regy)))
+    if obs['final']['dup_families']:
+        return ('C02:two-collectors-one-name', 'the final collect exposes families twice: %r' % (obs['final']['dup_families'],))
+    if obs['final']['maps_bad']:
+        return ('C02:registry-maps-inconsistent', 'after the threads joined: ' + '; '.join(obs['final']['maps_bad'][:3]))
     return identity_and_collect_oracle(ops, dyn, obs)
 
 
@@ -544,6 +604,11 @@ def sums_oracle(ops, dyn, vals, sig, where):
             got = vals.get(('p_total', (('l', k),)))
             if got != want:
                 return (sig, where + 'child p{l=%s}: final value %r, sum of the increments issued %r' % (k, got, want))
+    for k in sorted({f[1] for f in ops if f[0] == 'linc2'}):
+        want = sum(int(f[2]) for f in ops if f[0] == 'linc2' and f[1] == k)
+        got = vals.get(('p2_total', (('l', k),)))
+        if got != want:
+            return (sig, where + 'child p2{l=%s}: final value %r, sum of the increments issued %r' % (k, got, want))
     sobs = [float(f[2]) for f in ops if f[0] == 'obs' and f[1] == 's']
     if sobs:
         if vals.get(('s_count', ())) != len(sobs) or vals.get(('s_sum', ())) != sum(sobs):
@@ -613,6 +678,8 @@ def identity_and_collect_oracle(ops, dyn, obs):
     tis = {f[1] for f in ops if f[0] == 'sti'} | {'t0'}
     for tid, idx, op, toks, extra, t0, t1 in obs['log']:
         if extra is None:
+            continue
+        if 'regy' in extra:
             continue
         if 'restricted' in extra:
             want, got, bad = extra['restricted']
@@ -723,7 +790,8 @@ class ProgramSearch:
         self.nruns = 0
         self.wall = 0.0
         self.done = False
-        self.ex = sched.explore(self._once, len(program.split('|')), bound, point_filter=relevant_point)
+        self.ex = sched.explore(self._once, len(program.split('|')), bound,
+                                point_filter=relevant_point_deep if program in DEEP else relevant_point)
 
     def _once(self, policy):
         res, obs = run_once(self.backend, self.flags, self.program, policy)
